@@ -17,7 +17,8 @@ from ..dataflow import Flow, chain, call_name
 from ..absint import Interp
 from ..poly import Poly, le, lt, eq
 from ..terms import Terms, mk_cmp, is_none, plain, split_cond, \
-    alternatives, match, V, ANY, show, lookup, subterms
+    alternatives, match, V, ANY, show, lookup, subterms, stores, as_lambda, \
+    method_calls
 from ..util import calls_in, qual, formals, returns_of, raises_of, \
     raise_name, has_fact, bind, parse_expr
 
@@ -63,11 +64,18 @@ def r1_algebra(program, rep):
     inst = qual(fn)
     ka, ma, kb, mb = formals(fn)
     r = returns_of(fn)
-    if len(r) != 1 or not isinstance(r[0].value, ast.Compare) or \
-            not isinstance(r[0].value.ops[0], ast.Eq):
+    if len(r) != 1 or r[0].value is None:
         raise AnalysisError("intersect: shape changed")
-    c = r[0].value
-    diff = ast.BinOp(left=c.left, op=ast.BitXor(), right=c.comparators[0])
+    # the returned comparison with temporaries resolved
+    from ..terms import reify
+    rt = Terms(fn).term(r[0].value)
+    pol = True
+    while rt[0] == "not":
+        rt, pol = rt[1], not pol
+    if rt[0] != "cmp" or rt[1] != "Eq" or not pol:
+        raise AnalysisError("intersect: shape changed")
+    diff = _wp(ast.BinOp(left=reify(plain(rt[2])), op=ast.BitXor(),
+                         right=reify(plain(rt[3]))))
     t = _tt(diff, [ka, ma, kb, mb])
     bad = []
     n = 0
@@ -610,7 +618,13 @@ def r3_ranges(program, rep):
                              ()))
         want = ("call", ("global", "sorted"), (("param", formals(oc)[0]),),
                 (("key", gen),))
-        alts = [plain(x) for x in alternatives(tab)]
+        def norm(x):
+            # sorted(..., key=<nested one-line function>) reads as a lambda
+            if x[0] == "call" and x[1] == ("global", "sorted") and x[3]:
+                return x[:3] + (tuple((k, as_lambda(O, v))
+                                      for k, v in x[3]),)
+            return x
+        alts = [norm(plain(x)) for x in alternatives(tab)]
         oks = want in alts and all(
             x == want or (x[0] == "comp" and x[2] == 0 and
                           x[1][0] == "call" and x[1][1][0] == "attr" and
@@ -624,30 +638,7 @@ def r3_ranges(program, rep):
                    "sort of the caller's table by generality: entries of "
                    "equal generality may change places and a later entry "
                    "can take keys from an earlier one")
-    ap = program.get(OC + ":_Merge.apply")
-    afl = Flow(ap)
-    ins = [d for d in afl.defs if d.var == "new_table" and d.mode == "mut"
-           and isinstance(d.node.ast, ast.Assign) and
-           chain(d.node.ast.value) == "new_entry"]
-    ok = len(ins) == 2
-    if ok:
-        f1 = afl.facts(ins[0].node)
-        f2 = afl.facts(ins[1].node)
-        ok = has_fact(f1, "i == self.insertion_index", True) and \
-            has_fact(f2, "self.insertion_index == len(self.routing_table)",
-                     True)
-        # in-loop insertion precedes the copy of old entry i
-        cp = [d for d in afl.defs if d.var == "new_table" and d.mode == "mut"
-              and isinstance(d.node.ast, ast.Assign) and
-              chain(d.node.ast.value) == "entry"]
-        ok = ok and len(cp) == 1 and afl.cfg.reaches(ins[0].node,
-                                                     cp[0].node) and \
-            not afl.cfg.reaches(cp[0].node, ins[0].node, avoid=[
-                afl.cfg.loop_head[id(_loop(cp[0].node.ast))]])
-    rep.check(ok, "C04-R3", qual(ap), "apply inserts the merged entry "
-              "immediately before old index insertion_index (or at the end "
-              "when that equals the table length)",
-              construct="apply insertion point", node=ap)
+    rep.guard(["C04-R3", "C04-R4", "C04-R5"], _apply_rules, program, rep)
     rep.floor("C04-R3", 5)
 
 
@@ -683,7 +674,13 @@ def r4_aliases(program, rep):
                              ()))
         want = ("call", ("global", "sorted"), (("param", formals(oc)[0]),),
                 (("key", gen),))
-        alts = [plain(x) for x in alternatives(tab)]
+        def norm(x):
+            # sorted(..., key=<nested one-line function>) reads as a lambda
+            if x[0] == "call" and x[1] == ("global", "sorted") and x[3]:
+                return x[:3] + (tuple((k, as_lambda(O, v))
+                                      for k, v in x[3]),)
+            return x
+        alts = [norm(plain(x)) for x in alternatives(tab)]
         oks = want in alts and all(
             x == want or (x[0] == "comp" and x[2] == 0 and
                           x[1][0] == "call" and x[1][1][0] == "attr" and
@@ -697,44 +694,6 @@ def r4_aliases(program, rep):
                    "sort of the caller's table by generality: entries of "
                    "equal generality may change places and a later entry "
                    "can take keys from an earlier one")
-    ap = program.get(OC + ":_Merge.apply")
-    afl = Flow(ap)
-    ups = [c for c in calls_in(ap, "update")
-           if chain(call_name(c)[1]) == "our_aliases"]
-    ok = len(ups) == 1 and unparse(ups[0].args[0]) == "aliases.pop(km, {km})"
-    if ok:
-        n = afl.cfg.node_containing(ups[0])
-        f = afl.facts(n)
-        ok = has_fact(f, "i not in self.entries", False) or \
-            has_fact(f, "i in self.entries", True)
-        km = afl.reaching("km", n)
-        ok = ok and len(km) == 1 and unparse(km[0].value) == \
-            "(entry.key, entry.mask)"
-    rep.check(ok, "C04-R4", qual(ap), "every removed entry's key/mask - or "
-              "everything it stood for - is recorded under the merged entry",
-              construct="alias recording", node=ap,
-              fail="removed entries are not recorded as aliases of the "
-                   "merged entry: later down-checks no longer see the keys "
-                   "they stood for")
-    reg = [d for d in afl.defs if d.var == "aliases" and d.mode == "mut" and
-           isinstance(d.node.ast, ast.Assign) and
-           "our_aliases" in unparse(d.node.ast)]
-    okr = len(reg) == 1 and unparse(reg[0].node.ast.targets[0]) == \
-        "aliases[self.key, self.mask]"
-    rep.check(okr, "C04-R4", qual(ap), "the alias set is filed under the "
-              "merged entry's own (key, mask)", construct="alias key",
-              node=ap)
-    ne = calls_in(ap, "RoutingTableEntry")
-    okn = len(ne) == 1
-    if okn:
-        kw = {k.arg: unparse(k.value) for k in ne[0].keywords}
-        okn = kw.get("key") == "self.key" and kw.get("mask") == "self.mask" \
-            and kw.get("sources") == "self.sources" and \
-            kw.get("route") == \
-            "self.routing_table[next(iter(self.entries))].route"
-    rep.check(okn, "C04-R4", qual(ap), "the merged entry carries the merge's "
-              "key, mask and sources and a member's route",
-              construct="merged entry fields", node=ap)
     # aliases are copied, never shared: neither apply() nor
     # ordered_covering() (whose default is a shared dict) mutates the
     # dictionary it is given
@@ -761,14 +720,291 @@ def r4_aliases(program, rep):
     rep.check(okg, "C04-R4", qual(gm), "only entries with identical routes "
               "are merged", construct="merge candidates share route",
               node=gm)
-    rets = returns_of(ap)
-    okret = len(rets) == 1 and [chain(e) for e in rets[0].value.elts] == [
-        "new_table", "aliases"]
-    sz = [d for d in afl.defs if d.var == "new_size"]
-    okret = okret and len(sz) == 1 and unparse(sz[0].value) == \
-        "len(self.routing_table) - len(self.entries) + 1"
-    rep.check(okret, "C04-R5", qual(ap), "apply returns a table of len - "
-              "|members| + 1 entries", construct="apply size", node=ap)
+
+
+def _apply_rules(program, rep):
+    """_Merge.apply: the table and alias dictionary it returns, read off the
+    values it builds (whatever way the list is filled: slots written through
+    a cursor, appends, or concatenated filtered segments)."""
+    ap = program.get(OC + ":_Merge.apply")
+    inst = qual(ap)
+    T = Terms(ap)
+    cfg = T.cfg
+    SELF = _P("self")
+    TAB, ENT, IDX = (("attr", SELF, a_) for a_ in (
+        "routing_table", "entries", "insertion_index"))
+    rets = [r for r in returns_of(ap) if r.value is not None]
+    if len(rets) != 1:
+        raise AnalysisError("apply: one return")
+    rt = T.term(rets[0].value)
+    if rt[0] != "tuple" or len(rt) != 3 or rt[2][0] != "new":
+        raise AnalysisError("apply: returns (new table, new aliases)")
+    L, ALI = rt[1], rt[2]
+    rep.check(plain(ALI) == ("call", ("global", "dict"),
+                             (_P(formals(ap)[1]),), ()), "C04-R4", inst,
+              "the alias dictionary returned is a copy of the one given, "
+              "updated", construct="alias copy", node=ap)
+    # the merged entry
+    NEW = None
+    for st in subterms(("tuple",) + tuple(
+            x for _, _, _, _, v in stores(T) for x in [v]) + tuple(
+            a_ for _, _, _, args in method_calls(T, "append")
+            for a_ in args)):
+        if st[0] in ("call", "callv") and \
+                st[1] == ("global", "RoutingTableEntry"):
+            NEW = st
+    if NEW is None:
+        raise AnalysisError("apply: the merged entry")
+    kw = dict(NEW[3])
+    okn = not NEW[2] and kw.get("key") == ("attr", SELF, "key") and \
+        kw.get("mask") == ("attr", SELF, "mask") and \
+        kw.get("sources") == ("attr", SELF, "sources")
+    r_ = plain(kw.get("route", ("?",)))
+    okn = okn and r_[0] == "attr" and r_[2] == "route" and \
+        r_[1][0] == "item" and r_[1][1] == TAB and r_[1][2] == (
+            "call", ("global", "next"),
+            (("call", ("global", "iter"), (ENT,), ()),), ())
+    rep.check(okn, "C04-R4", inst, "the merged entry carries the merge's "
+              "key, mask and sources and a member's route",
+              construct="merged entry fields", node=ap)
+    # the alias set of the merged entry
+    OUR = None
+    for n, st, base, key, val in stores(T):
+        if base == ALI and key == ("tuple", ("attr", SELF, "key"),
+                                   ("attr", SELF, "mask")) and \
+                val[0] == "new" and not T.all_facts(n):
+            OUR = val
+    rep.check(OUR is not None and plain(OUR) in (
+        ("call", ("global", "set"), (), ()),
+        ("call", ("global", "set"), (("list",),), ()), ("set",)),
+        "C04-R4", inst, "the alias set is filed under the merged entry's "
+        "own (key, mask) and starts empty", construct="alias key", node=ap)
+    if OUR is None:
+        return
+    E_T = ("elem", TAB)
+    I_T = ("index", TAB)
+    KM = ("tuple", ("attr", E_T, "key"), ("attr", E_T, "mask"))
+    member = (("cmp", "In", I_T, ENT), True)
+    present = ("cmp", "In", KM, ALI)
+    adds = []
+    for n, c, recv, args in method_calls(T, ("update", "add")):
+        if recv == OUR and len(args) == 1:
+            f = [x for x in T.all_facts(n)]
+            adds.append((c.func.attr, plain(args[0]), f, n))
+    pKM, pALI = plain(KM), plain(ALI)
+    pop_def = ("call", ("attr", pALI, "pop"), (pKM, ("set", pKM)), ())
+    pop_ = ("call", ("attr", pALI, "pop"), (pKM,), ())
+    ok = False
+    if len(adds) == 1:
+        m_, a_, f, n = adds[0]
+        ok = m_ == "update" and a_ == pop_def and f == [member]
+    elif len(adds) == 2:
+        there = [x for x in adds if (present, True) in x[2]]
+        absent = [x for x in adds if (present, False) in x[2]]
+        ok = len(there) == 1 and len(absent) == 1 and \
+            there[0][0] == "update" and there[0][1] in (pop_, pop_def) and \
+            sorted(map(repr, there[0][2])) == sorted(map(repr, [
+                member, (present, True)])) and \
+            sorted(map(repr, absent[0][2])) == sorted(map(repr, [
+                member, (present, False)])) and (
+                (absent[0][0] == "add" and absent[0][1] == pKM) or
+                (absent[0][0] == "update" and absent[0][1] == ("set", pKM)))
+    # ... for every member: the loop runs over the whole table
+    if ok:
+        lp = _loop(adds[0][3].ast)
+        ok = lp is not None and isinstance(lp, ast.For) and \
+            plain(T.term(lp.iter, cfg.loop_head[id(lp)])) in (
+                ("call", ("global", "enumerate"), (TAB,), ()),) and \
+            not any(isinstance(x, (ast.Break, ast.Continue, ast.Return))
+                    for x in ast.walk(lp))
+    if not adds:
+        raise AnalysisError("apply: how removed entries are recorded")
+    rep.check(ok, "C04-R4", inst, "every removed entry's key/mask - or "
+              "everything it stood for - is recorded under the merged entry "
+              "(and its own alias record is dropped)",
+              construct="alias recording", node=ap,
+              fail="removed entries are not recorded as aliases of the "
+                   "merged entry: later down-checks no longer see the keys "
+                   "they stood for")
+    # the new table
+    _apply_sequence(rep, ap, T, L, NEW, TAB, ENT, IDX)
+
+
+def _apply_sequence(rep, ap, T, L, NEW, TAB, ENT, IDX):
+    inst = qual(ap)
+    cfg = T.cfg
+    E_T, I_T = ("elem", TAB), ("index", TAB)
+    LEN = _len(TAB)
+    inner = plain(L)
+    emits = []      # (node, "one"/"many", value, facts)
+    for n, c, recv, args in method_calls(T, ("append", "extend", "insert",
+                                             "pop", "remove", "sort",
+                                             "reverse")):
+        if recv != L:
+            continue
+        if c.func.attr == "append" and len(args) == 1:
+            emits.append((n, "one", args[0], T.all_facts(n)))
+        elif c.func.attr == "extend" and len(args) == 1:
+            emits.append((n, "many", args[0], T.all_facts(n)))
+        else:
+            raise AnalysisError("apply: %s() on the new table" % c.func.attr)
+    cursor = [x for x in stores(T) if x[2] == L]
+    presized = None
+    if cursor:
+        if emits:
+            raise AnalysisError("apply: slots and appends mixed")
+        # L[k] = x; k += 1 with k starting at 0 is an append, provided the
+        # list was created with exactly the number of slots written
+        ks = set(x[3] for x in cursor)
+        if len(ks) != 1 or list(ks)[0][0] != "mu":
+            raise AnalysisError("apply: the cursor")
+        kv = list(ks)[0][1].var
+        binds = [b_ for b_ in T.binds if b_.var == kv]
+        init = [b_ for b_ in binds if b_.mode == "assign" and
+                T._bind_term(b_) == ("const", 0)]
+        incs = [b_ for b_ in binds if b_ not in init]
+        fl = Flow(ap)
+        good = len(init) == 1 and len(incs) == len(cursor)
+        for b_ in incs:
+            good = good and fl.sym_after(
+                ast.Name(id=kv, ctx=ast.Load()), b_.node) == fl.sym(
+                ast.Name(id=kv, ctx=ast.Load()), b_.node) + 1
+        heads = list(cfg.loop_head.values())
+        for x in cursor:
+            good = good and cfg.must_pass(
+                x[0], lambda n_: any(n_ is b_.node for b_ in incs),
+                targets=[y[0] for y in cursor if y is not x] + heads +
+                [cfg.exit]) if x is not cursor[-1] or True else good
+        # the store after the loop is the last write: no increment needed
+        if not good:
+            last = [x for x in cursor if _loop(x[1]) is None]
+            good = len(init) == 1 and len(incs) == len(cursor) - len(last) \
+                and all(cfg.must_pass(
+                    x[0], lambda n_: any(n_ is b_.node for b_ in incs),
+                    targets=[y[0] for y in cursor if y is not x] + heads +
+                    [cfg.exit]) for x in cursor if x not in last)
+        if not good:
+            raise AnalysisError("apply: the cursor does not advance by one "
+                                "per slot written")
+        for x in cursor:
+            emits.append((x[0], "one", x[4], T.all_facts(x[0])))
+        if not (inner[0] == "listcomp" and inner[1] == ("const", None) and
+                len(inner[2]) == 1 and not inner[2][0][1] and
+                inner[2][0][0][0] == "call" and
+                inner[2][0][0][1] == ("global", "range") and
+                len(inner[2][0][0][2]) == 1):
+            raise AnalysisError("apply: the pre-sized table")
+        presized = inner[2][0][0][2][0]
+        fl2 = Flow(ap)
+        from ..terms import reify
+        size = fl2.sym(_wp(reify(plain(presized))), fl2.cfg.entry)
+        want = fl2.sym(_wp(reify(("binop", "Add", ("binop", "Sub", LEN,
+                                                   _len(ENT)),
+                                  ("const", 1)))), fl2.cfg.entry)
+        rep.check(size == want, "C04-R5", inst, "apply returns a table of "
+                  "len - |members| + 1 entries", construct="apply size",
+                  node=ap, fail="the new table is created with %r slots, "
+                  "not len(table) - len(members) + 1" % (size,))
+        first = []
+    else:
+        if inner in (("list",), ("call", ("global", "list"), (), ())):
+            first = []
+        elif inner[0] == "listcomp":
+            first = [(None, "many", L[2] if L[0] == "new" else L, [])]
+        else:
+            raise AnalysisError("apply: how the new table starts")
+        rep.check(True, "C04-R5", inst, "apply returns a table of len - "
+                  "|members| + 1 entries (one slot per surviving entry plus "
+                  "the merged one: see the insertion rule)",
+                  construct="apply size", node=ap)
+
+    def before(a, b):
+        return a is not b and (cfg.dominates(a, b) or (
+            cfg.reaches(a, b) and not cfg.reaches(b, a)))
+    import functools
+    emits.sort(key=functools.cmp_to_key(
+        lambda x, y: -1 if before(x[0], y[0]) else
+        (1 if before(y[0], x[0]) else 0)))
+    emits = first + emits
+    pNEW = plain(NEW)
+
+    def seg(t, lo, hi):
+        t = plain(t)
+        if t[0] != "listcomp" or len(t[2]) != 1:
+            return False
+        it, conds = t[2][0]
+        rng = ("call", ("global", "range"))
+        ok_r = it[:2] == rng and not it[3] and (
+            (len(it[2]) == 2 and it[2][0] in lo and it[2][1] == hi) or
+            (len(it[2]) == 1 and ("const", 0) in lo and it[2][0] == hi))
+        if not ok_r:
+            return False
+        a_ = it[2][0] if len(it[2]) == 2 else ("const", 0)
+        elt_ok = t[1][0] == "elem" and t[1][1][0] == "item" and \
+            t[1][1][1] == TAB and t[1][1][2][0] == "slice" and \
+            t[1][1][2][1] in (a_, ("const", None) if a_ == ("const", 0)
+                              else a_) and t[1][1][2][2] == hi
+        return elt_ok and list(conds) == [
+            ("not", ("cmp", "In", ("elem", it), ENT))]
+    ok = False
+    kinds = [e[1] for e in emits]
+    if kinds == ["one", "one", "one"]:
+        in_loop = [e for e in emits if _loop(e[0].ast) is not None]
+        after = [e for e in emits if _loop(e[0].ast) is None]
+        if len(in_loop) == 2 and len(after) == 1:
+            e1 = [e for e in in_loop if plain(e[2]) == pNEW]
+            e2 = [e for e in in_loop if e[2] == E_T]
+            lp = _loop(in_loop[0][0].ast)
+            ok = len(e1) == 1 and len(e2) == 1 and isinstance(lp, ast.For) \
+                and plain(T.term(lp.iter, cfg.loop_head[id(lp)])) == (
+                    "call", ("global", "enumerate"), (TAB,), ()) and \
+                _loop(in_loop[1][0].ast) is lp and \
+                [(plain(t), p_) for t, p_ in e1[0][3]] == [
+                    (mk_cmp("Eq", IDX, I_T), True)] and \
+                [(plain(t), p_) for t, p_ in e2[0][3]] == [
+                    (("cmp", "In", I_T, ENT), False)] and \
+                plain(after[0][2]) == pNEW and \
+                [(plain(t), p_) for t, p_ in after[0][3]] == [
+                    (mk_cmp("Eq", IDX, LEN), True)] and \
+                cfg.reaches(e1[0][0], e2[0][0], avoid=[
+                    cfg.loop_head[id(lp)]]) and \
+                not cfg.reaches(e2[0][0], e1[0][0], avoid=[
+                    cfg.loop_head[id(lp)]]) and \
+                not any(isinstance(x, (ast.Break, ast.Continue, ast.Return))
+                        for x in ast.walk(lp)) and \
+                cfg.dominates(cfg.loop_head[id(lp)], after[0][0])
+    elif kinds == ["many", "one", "many"]:
+        ok = seg(emits[0][2], (("const", 0), ("const", None)), IDX) and \
+            plain(emits[1][2]) == pNEW and not emits[1][3] and \
+            seg(emits[2][2], (IDX,), LEN) and not emits[2][3]
+    elif kinds == ["one", "one"] and all(
+            isinstance(_loop(e[0].ast), ast.For) and
+            plain(T.term(_loop(e[0].ast).iter,
+                         cfg.loop_head[id(_loop(e[0].ast))])) == (
+                "call", ("global", "enumerate"), (TAB,), ())
+            for e in emits):
+        # the in-loop insertion alone never fires for insertion_index ==
+        # len(table)
+        ok = False
+    else:
+        raise AnalysisError("apply: the new table is built in a way that is "
+                            "not analysed (%s)" % kinds)
+    rep.check(ok, "C04-R3", inst, "apply inserts the merged entry "
+              "immediately before old index insertion_index (or at the end "
+              "when that equals the table length) among the surviving "
+              "entries, whose order is kept",
+              construct="apply insertion point", node=ap,
+              fail="the table returned by apply is not [survivors before "
+                   "insertion_index] + [merged entry] + [survivors from "
+                   "insertion_index on]")
+
+
+def _wp(e):
+    for n in ast.walk(e):
+        for c in ast.iter_child_nodes(n):
+            c._parent = n
+    ast.fix_missing_locations(e)
+    return e
 
 
 def _P(n):
@@ -901,17 +1137,10 @@ def r5_contract(program, rep):
         if not good:
             bad_call = c
         okm = okm and good
-    oki = len(lists) == 1
-    if oki:
-        L = list(lists)[0]
-        ins = [c for c in calls_in(mt, "insert")
-               if M.term(c.func.value) == L]
-        oki = len(ins) == 1 and M.term(ins[0].args[0]) == ("const", 0) and \
-            M.term(ins[0].args[1]) == ("global", "_identity") and \
-            plain(L) == ("call", ("global", "list"), (_P(meths),), ())
-    rep.check(okr and oki, "C04-R5", qual(mt), "with a target, the methods "
-              "are tried in order, identity first; when none succeeds "
-              "MinimisationFailedError(target, best) is raised",
+    # (whether the identity comes first in the method list only matters for
+    # speed: not checked)
+    rep.check(okr, "C04-R5", qual(mt), "with a target, when no method "
+              "succeeds MinimisationFailedError(target, best) is raised",
               construct="minimise_table contract", node=mt)
     rep.check(okm, "C04-R5", qual(mt), "every minimiser is applied to the "
               "caller's own table and target (never to another minimiser's "
@@ -947,9 +1176,31 @@ def r5_contract(program, rep):
         b_ = bind(cs[0], mt)
         E = ("elem", ("items", _P(formals(mts)[0])))
         tgt = S.term(b_[mtl], n) if mtl in b_ else None
+        CHIP = ("comp", E, 0)
+        TL = _P(formals(mts)[1])
+
+        def tgt_ok(x, depth=0):
+            # the caller's target itself, or an entry of it for this chip
+            if x == TL:
+                return True
+            if lookup(x) is not None:
+                return lookup(x)[1] == CHIP
+            if x[0] in ("call", "callv") and x[1][0] == "local" and \
+                    depth < 2:
+                helper = [h for h in ast.walk(mts)
+                          if isinstance(h, ast.FunctionDef) and
+                          h.name == x[1][1] and h is not mts]
+                if len(helper) == 1 and CHIP in x[2]:
+                    outs = []
+                    for view in S.inners(helper[0]):
+                        for r in returns_of(helper[0]):
+                            if r.value is not None:
+                                outs.append(view.term(r.value))
+                    return bool(outs) and all(tgt_ok(o, depth + 1)
+                                              for o in outs)
+            return False
         okt = S.term(b_[tb], n) == ("comp", E, 1) and tgt is not None and \
-            all(lookup(x) is not None and lookup(x)[1] == ("comp", E, 0)
-                for x in [tgt]) and \
+            tgt_ok(tgt) and \
             S.term(b_.get(meths, ast.Constant(value=0)), n) == \
             _P(formals(mts)[2])
     rep.check(okt, "C04-R5", qual(mts), "each chip's table is minimised "
@@ -988,33 +1239,69 @@ def r6_empty(program, rep):
     inst = qual(fn)
     rt = formals(fn)[0]
     L = Poly.atom("len(%s)" % rt)
-    pos = Poly.atom("pos")
-    cands = [le(0, pos), lt(pos, L), le(pos, L), le(0, Poly.atom("bottom")),
-             le(Poly.atom("bottom"), Poly.atom("top")),
-             le(Poly.atom("top"), L), le(1, L),
-             lt(Poly.atom("bottom"), Poly.atom("top")),
-             le(Poly.atom("bottom"), pos), le(pos, Poly.atom("top"))]
+    # candidate invariants: every ordering among the integer locals, 0 and
+    # the table length
+    names = sorted(set(
+        n.id for n in ast.walk(fn) if isinstance(n, ast.Name) and
+        isinstance(n.ctx, ast.Store) and _own(n, fn)))
+    lens = set()
+    for n in ast.walk(fn):
+        if isinstance(n, ast.Assign) and isinstance(n.value, ast.Call) and \
+                call_name(n.value)[0] == "len" and \
+                chain(n.value.args[0]) == rt:
+            lens.update(chain(t) for t in n.targets if chain(t))
+    atoms = [Poly.atom(x) for x in names]
+    cands = [le(1, L)]
+    for a in atoms:
+        cands += [le(0, a), lt(a, L), le(a, L)]
+        for b_ in atoms:
+            if a is not b_:
+                cands += [le(a, b_), lt(a, b_)]
+    for x in lens:
+        cands += list(eq(Poly.atom(x), L))
     it = Interp(fn, candidates=cands)
-    subs = [n for n in ast.walk(fn) if isinstance(n, ast.Subscript) and
-            chain(n.value) == rt and isinstance(n.ctx, ast.Load) and
-            _own(n, fn)]
-    n_ok = 0
-    for s_ in subs:
-        node = it.cfg.node_containing(s_)
+    obligations = []      # (index expression, node where it is evaluated)
+    for s_ in ast.walk(fn):
+        if not (isinstance(s_, ast.Subscript) and chain(s_.value) == rt and
+                isinstance(s_.ctx, ast.Load)):
+            continue
+        if _own(s_, fn):
+            obligations.append((s_.slice, s_, it.cfg.node_containing(s_)))
+            continue
+        # inside a nested helper: the index must be one of its parameters,
+        # checked at every call
+        h = s_
+        while h is not None and not isinstance(h, ast.FunctionDef):
+            h = getattr(h, "_parent", None)
+        ps = formals(h) if h is not None and h is not fn else []
+        if chain(s_.slice) not in ps or getattr(h, "_parent", None) is not \
+                fn:
+            raise AnalysisError("_get_insertion_index: a table access in a "
+                                "form that is not analysed")
+        k = ps.index(chain(s_.slice))
+        sites = [c for c in ast.walk(fn) if isinstance(c, ast.Call) and
+                 isinstance(c.func, ast.Name) and c.func.id == h.name]
+        if not sites or not all(_own(c, fn) and len(c.args) > k
+                                for c in sites):
+            raise AnalysisError("_get_insertion_index: helper call sites")
+        for c in sites:
+            obligations.append((c.args[k], c, it.cfg.node_containing(c)))
+    if not obligations:
+        raise AnalysisError("_get_insertion_index: no table access found")
+    for e, at, node in obligations:
         if not it.reachable(node):
             continue
-        idx = it.sym(s_.slice, node)
+        idx = it.sym(e, node)
         ok = it.holds_at(node, [le(0, idx), lt(idx, L)])
         rep.check(ok, "C04-R6", inst, "%s[%s] is within range (0 <= index < "
                   "len) on every path, including for the empty table" % (
-                      rt, unparse(s_.slice)),
-                  construct="index %s in range" % unparse(s_.slice),
-                  node=s_,
+                      rt, unparse(e)),
+                  construct="index %s in range" % unparse(e),
+                  node=at,
                   fail="%s[%s] may be out of range (IndexError on the empty "
-                       "table?); state: %s" % (rt, unparse(s_.slice),
+                       "table?); state: %s" % (rt, unparse(e),
                                                it.describe(node)))
-    # nested gg(entry) is only applied to table elements
-    rep.floor("C04-R6", 3)
+    rep.floor("C04-R6", 2)
 
 
 def _own(node, fn):
